@@ -30,17 +30,23 @@
    `_partial`, the visible guards:
      - wp_ok: every page has 1 <= rows < 2^31; a required column has no null; PLAIN pages: type is not BOOLEAN
        (the writer bit-packs / RLE-encodes booleans: the C01_bools theorems), values fit the type; categorical pages:
-       k in {1, 2, 4}, every code < 256^k, labels present (codes outside the labels: no column, see w_page_cells);
+       k in {1, 2, 4}, every code < 2^(8k-1) (a signed k-byte integer, what a pandas categorical holds), labels present (codes outside the labels: no column, see w_page_cells);
      - phdr_wf: sizes and counts fit a thrift i32 (a page < 2 GiB);
      - wp_inplace_ok: the in-place v2 path is only taken for fixed-width numeric types (as in read_col);
      - clock: fuel of the page loop >= length of the chunk.
+   C01_chunk_categorical_roundtrip_partial: the same for the DEFAULT way a categorical column comes back - read
+   AS A CATEGORICAL (read_col with use_cat, Impl/RCat.v rd_chunk_cat): the dictionary is not de-referenced, the
+   result is the labels and the codes array with -1 for a missing cell; v1 pages through read_data_page (raw
+   codes / hybrid), v2 pages through the use_cat branch of read_data_page_v2 with ITS selfmade shortcut (skip the
+   run header, copy or view the raw codes) or the hybrid decoder.  Extra guards: every page is a dictionary page,
+   the chunk has a row, the codes array has the item size the writer used (ak = k).
    Not covered here: nested columns (C15), BOOLEAN columns, the object-dtype conversions before / after
    (convert / C02 frames), statistics, the row-group / file level.                                         *)
 From Coq Require Import String.
 From Coq Require Import NArith ZArith List Bool.
 From Pq Require Import Base.Bytes Base.ListX Codec.Hybrid Thrift.Compact Format.Phys Format.Meta Format.Page Format.Enc
-  Impl.WLevels Impl.WChunk Impl.RPages Impl.RChunk Impl.RSelf
-  Proofs.FormatPageProofs Proofs.WChunkProofs.
+  Impl.WLevels Impl.WChunk Impl.RPages Impl.RChunk Impl.RSelf Impl.RCat
+  Proofs.FormatPageProofs Proofs.WChunkProofs Proofs.RCatProofs.
 Import ListNotations.
 Open Scope list_scope.
 Open Scope N_scope.
@@ -86,6 +92,43 @@ Theorem C01_chunk_roundtrip_partial :
 Proof. exact chunk_roundtrip. Qed.
 Print Assumptions C01_chunk_roundtrip_partial.
 
+(* read as a categorical: labels + codes array (-1 = missing) *)
+Theorem C01_cat_page_v1_roundtrip_partial :
+  forall selfmade skip_nulls c codes,
+  wc_v2 c = false -> wp_ok c (WDictP codes) ->
+  (skip_nulls = true -> w_nonnull (WDictP codes) = w_rows (WDictP codes)) ->
+  rd_cat_page_v1 selfmade skip_nulls (cd_of c) (w_v1_header (WDictP codes))
+                 (w_defs c (WDictP codes) ++ w_values c (WDictP codes) ++ [0; 0; 0; 0; 0; 0; 0; 0])
+  = ROk (map code_z codes).
+Proof. exact cat_page_v1_writer. Qed.
+Print Assumptions C01_cat_page_v1_roundtrip_partial.
+
+Theorem C01_cat_page_v2_roundtrip_partial :
+  forall (compress : Z -> bytes -> bytes) (decompress : Z -> N -> bytes -> option bytes),
+  (forall codec b, decompress codec (lenN b) (compress codec b) = Some b) ->
+  forall selfmade c codes,
+  wc_v2 c = true -> wp_ok c (WDictP codes) ->
+  rd_page_v2_cat decompress selfmade (N.of_nat (wc_k c)) (cd_of c) (wc_codec c) (w_v2_header c (WDictP codes))
+             (lenN (w_defs c (WDictP codes)) + lenN (w_values c (WDictP codes)))
+             (lenN (w_defs c (WDictP codes)) + lenN (deflate compress (wc_codec c) (w_values c (WDictP codes))))
+             (w_defs c (WDictP codes) ++ deflate compress (wc_codec c) (w_values c (WDictP codes)))
+  = ROk (map code_z codes).
+Proof. exact cat_page_v2_writer. Qed.
+Print Assumptions C01_cat_page_v2_roundtrip_partial.
+
+Theorem C01_chunk_categorical_roundtrip_partial :
+  forall (compress : Z -> bytes -> bytes) (decompress : Z -> N -> bytes -> option bytes),
+  (forall codec b, decompress codec (lenN b) (compress codec b) = Some b) ->
+  forall selfmade skip_nulls c clock labels,
+  wchunk_ok compress c -> wc_labels c = Some labels -> Forall is_dict_page (wc_pages c) -> 0 < w_chunk_rows c ->
+  (skip_nulls = true -> wc_v2 c = false -> Forall (fun p => w_nonnull p = w_rows p) (wc_pages c)) ->
+  (length (w_chunk compress c) <= length clock)%nat ->
+  rd_chunk_cat decompress clock selfmade skip_nulls (N.of_nat (wc_k c)) (cd_of c) (wc_codec c) (w_chunk_rows c) None
+               (w_chunk compress c) 0 []
+  = ROk (Some labels, concat (map page_codes (wc_pages c))).
+Proof. exact chunk_cat_roundtrip. Qed.
+Print Assumptions C01_chunk_categorical_roundtrip_partial.
+
 (* the statement is not vacuous and the models run: a categorical chunk (labels "a","bc"; codes 1,-,0,1 and
    0,0 on two v1 pages, optional) and a v2 INT32 chunk with a null, through every reader switch *)
 Definition id_c (_ : Z) (b : bytes) : bytes := b.
@@ -111,6 +154,18 @@ Proof.
   - intros [|]; vm_compute; reflexivity.
 Qed.
 Print Assumptions C01_chunk_examples.
+
+Definition ex_cat_v2 : wchunk :=
+  {| wc_v2 := true; wc_optional := true; wc_type := BYTE_ARRAY; wc_tlen := 0; wc_codec := 0%Z; wc_k := 2%nat;
+     wc_labels := Some [VBin [97]; VBin [98; 99]];
+     wc_pages := [WDictP [Some 1; None; Some 0; Some 1]; WDictP [Some 0; Some 0]; WDictP [None]] |}.
+Theorem C01_chunk_categorical_examples :
+  (forall selfmade, rd_chunk_cat id_d (repeat 0 200) selfmade false 1 (cd_of ex_cat) 0%Z (w_chunk_rows ex_cat) None
+                      (w_chunk id_c ex_cat) 0 [] = ROk (Some [VBin [97]; VBin [98; 99]], [1; -1; 0; 1; 0; 0]%Z))
+  /\ (forall selfmade, rd_chunk_cat id_d (repeat 0 200) selfmade false 2 (cd_of ex_cat_v2) 0%Z (w_chunk_rows ex_cat_v2) None
+                      (w_chunk id_c ex_cat_v2) 0 [] = ROk (Some [VBin [97]; VBin [98; 99]], [1; -1; 0; 1; 0; 0; -1]%Z)).
+Proof. split; intros [|]; vm_compute; reflexivity. Qed.
+Print Assumptions C01_chunk_categorical_examples.
 
 (* why the writer's 8 trailing zero bytes and the raw shortcut belong together: the same categorical page
    WITHOUT the reader's short-read handling would need 8 codes for the one announced group; with fewer codes
